@@ -392,6 +392,7 @@ class Daemon(object):
         request_serializer_id = serializers.MarshalSerializer.serializer_id
         wasBatched = False
         isCallback = False
+        fromUserCode = False    # the exception being handled was raised by the invoked method/property itself
         current_context.response_annotations = {}   # nothing set while serving an earlier request may ride on this reply
         try:
             msg = protocol.recv_stub(conn, [protocol.MSG_INVOKE, protocol.MSG_PING])
@@ -448,7 +449,7 @@ class Daemon(object):
                         except Exception as xv:
                             self.methodcall_error_handler(self, current_context.client_sock_addr, method, vargs, kwargs, xv)
                             xv._pyroTraceback = errors.format_traceback(detailed=config.DETAILED_TRACEBACK)
-                            data.append(core._ExceptionWrapper(xv))
+                            data.append(self.__transportableExceptionWrapper(serializer, xv))
                             break  # stop processing the rest of the batch
                         else:
                             data.append(result)    # note that we don't support streaming results in batch mode
@@ -457,7 +458,11 @@ class Daemon(object):
                     # normal single method call
                     if method == "__getattr__":
                         # special case for direct attribute access (only exposed @properties are accessible)
-                        data = _get_exposed_property_value(obj, vargs[0])
+                        try:
+                            data = _get_exposed_property_value(obj, vargs[0])
+                        except Exception:
+                            fromUserCode = True
+                            raise
                         if not request_flags & protocol.FLAGS_ONEWAY:
                             isStream, data = self._streamResponse(data, conn)
                             if isStream:
@@ -470,7 +475,11 @@ class Daemon(object):
                                 return
                     elif method == "__setattr__":
                         # special case for direct attribute access (only exposed @properties are accessible)
-                        data = _set_exposed_property_value(obj, vargs[0], vargs[1])
+                        try:
+                            data = _set_exposed_property_value(obj, vargs[0], vargs[1])
+                        except Exception:
+                            fromUserCode = True
+                            raise
                     else:
                         method = _get_attribute(obj, method)
                         if request_flags & protocol.FLAGS_ONEWAY:
@@ -483,6 +492,7 @@ class Daemon(object):
                                 data = method(*vargs, **kwargs)  # this is the actual method call to the Pyro object
                             except Exception as xv:
                                 self.methodcall_error_handler(self, current_context.client_sock_addr, method, vargs, kwargs, xv)
+                                fromUserCode = True
                                 raise
                             if not request_flags & protocol.FLAGS_ONEWAY:
                                 isStream, data = self._streamResponse(data, conn)
@@ -515,6 +525,15 @@ class Daemon(object):
             if msg:
                 request_seq = msg.seq
                 request_serializer_id = msg.serializer_id
+            if fromUserCode:
+                # whatever the remote method itself raised (even a Pyro communication or security error class) is the
+                # caller's answer; it says nothing about the state of this connection
+                if not request_flags & protocol.FLAGS_ONEWAY:
+                    tblines = errors.format_traceback(detailed=config.DETAILED_TRACEBACK)
+                    self._sendExceptionResponse(conn, request_seq, request_serializer_id, xv, tblines)
+                if isCallback:
+                    raise
+                return
             if not isinstance(xv, errors.ConnectionClosedError):
                 if not request_flags & protocol.FLAGS_ONEWAY:
                     if isinstance(xv, errors.SerializeError) or not isinstance(xv, errors.CommunicationError):
@@ -615,6 +634,18 @@ class Daemon(object):
             return createInstance(clazz, instance_creator)
         else:
             raise errors.DaemonError("invalid instancemode in registered class")
+
+    def __transportableExceptionWrapper(self, serializer, exc_value):
+        """wrap the exception of a failed batch member; if it cannot be serialized, wrap a generic PyroError describing it"""
+        wrapper = core._ExceptionWrapper(exc_value)
+        try:
+            serializer.dumps(wrapper)
+        except Exception as x:
+            msg = "Error serializing exception: %s. Original exception: %s: %s" % (str(x), type(exc_value), str(exc_value))
+            replacement = errors.PyroError(msg)
+            replacement._pyroTraceback = getattr(exc_value, "_pyroTraceback", None)
+            wrapper = core._ExceptionWrapper(replacement)
+        return wrapper
 
     def _sendExceptionResponse(self, connection, seq, serializer_id, exc_value, tbinfo, flags=0, annotations=None):
         """send an exception back including the local traceback info"""
